@@ -14,6 +14,7 @@ Result variants propagate and prune infeasible switch edges.  A Policy can remov
 (guard cuts, assumed configurations) and make functions opaque.  All calls / aggregates are
 logged as events with their operand values; rules read the event log.
 """
+import heapq
 import re
 import sys
 from facts import place as mkplace
@@ -59,6 +60,7 @@ class Val:
 
 EMPTY = Val()
 NOOPS = frozenset()
+FMT = frozenset(["fmt"])
 
 
 def A(origin, *ops):
@@ -143,7 +145,16 @@ def vjoin(a, b):
         return b
     if a == b:
         return a
-    atoms = norm_atoms(a.atoms | b.atoms)
+    if b.atoms <= a.atoms:
+        atoms = a.atoms
+        if (not a.fields and not b.fields) or (a.fields is b.fields):
+            return a
+    elif a.atoms <= b.atoms:
+        atoms = b.atoms
+        if (not a.fields and not b.fields) or (a.fields is b.fields):
+            return b
+    else:
+        atoms = norm_atoms(a.atoms | b.atoms)
     fields = {}
     for k in set(a.fields) | set(b.fields):
         fa = a.fields.get(k)
@@ -166,7 +177,7 @@ def vjoin(a, b):
 def norm_atoms(atoms):
     """Widening on operator sets: an origin with many distinct op-sets keeps its exact atom and
     one atom carrying the union of the others."""
-    if len(atoms) <= 16:
+    if len(atoms) <= 40:
         return atoms
     by = {}
     for a in atoms:
@@ -270,9 +281,23 @@ class Event:
         return "<Ev %s %s @%s %s>" % (self.kind, self.name, self.span, [show(v) for v in self.vals][:4])
 
 
+# numeric kernels: summarised (result derived from the arguments) unless a policy says otherwise
+KERNELS = frozenset([
+    "pool_manager::helpers::calculate_stableswap_y", "pool_manager::helpers::calculate_stableswap_d",
+    "pool_manager::helpers::calculate_d_core", "pool_manager::helpers::compute_next_d",
+    "pool_manager::helpers::dynamic_fee", "pool_manager::helpers::compute_y_raw",
+    "pool_manager::helpers::newton_raphson_iterate",
+])
+
+
+# first-party code that is treated like an external library (classified by the semantics table)
+EXTERNAL_PREFIXES = ("mantra_dex_std::uints::",)
+
+
 class Policy:
     """Default policy: no extra pruning, nothing opaque."""
     opaque = frozenset()
+    summarize = KERNELS
 
     def filter_edges(self, interp, fn, bb, opval, labels):
         """labels: list of (label, target, variant_name|None). Return iterable of allowed targets
@@ -306,6 +331,9 @@ class Interp:
         self.fn_instances = 0
         self.block_visits = 0
         self.unhandled = {}
+        self.memo = {}
+        self.memo_hits = 0
+        self.debug_cap = None
 
     def warn(self, msg):
         if len(self.warnings) < 500:
@@ -377,7 +405,12 @@ class Interp:
         at = set()
         for v in vals:
             for (o, ops) in self.flat(store, v):
-                at.add((o, ops | {op}))
+                if ops and o.startswith("Const("):
+                    continue    # constants are kept only in first-order derivations
+                if op == "fmt":
+                    at.add((o, FMT))   # formatting: only the origin matters
+                else:
+                    at.add((o, ops | {op}))
         return Val(norm_atoms(frozenset(at)))
 
     def write_through(self, store, refval, newval, strong=False, path=()):
@@ -390,6 +423,29 @@ class Interp:
             st = strong and one and "[*]" not in full
             store[objid] = vset(store.get(objid, EMPTY), full, newval, st)
         return bool(refs)
+
+    def reachable(self, store, vals):
+        """objids reachable from the ref atoms of vals (through the store), sorted."""
+        seen = set()
+        work = list(vals)
+        n = 0
+        while work and n < 4000:
+            v = work.pop()
+            n += 1
+            for a in v.atoms:
+                o = a[0]
+                if isinstance(o, tuple):
+                    if o[0] == "ref":
+                        if o[1] not in seen:
+                            seen.add(o[1])
+                            work.append(store.get(o[1], EMPTY))
+                    elif o[0] == "pred":
+                        for x in o[2:]:
+                            if isinstance(x, Val):
+                                work.append(x)
+            for f in v.fields.values():
+                work.append(f)
+        return sorted(seen, key=repr)
 
     # ------------------------------------------------------------ places
     def _resolve(self, store, frame, pl):
@@ -569,8 +625,22 @@ class Interp:
         if len(nctx) > MAX_DEPTH or sum(1 for c in nctx if c[0] == body.id) > 2:
             self.warn("recursion/depth limit at %s" % body.id)
             return self.derive(store, args, "ext:recursion"), store
+        # memo: same call site, same arguments, same reachable store -> same result (loop re-iterations)
+        mkey = None
+        reach = self.reachable(store, args)
+        try:
+            mkey = (nctx, tuple(hash(a) for a in args), tuple((o, hash(store.get(o, EMPTY))) for o in reach))
+        except Exception:
+            mkey = None
+        if mkey is not None and mkey in self.memo:
+            rv, delta = self.memo[mkey]
+            self.memo_hits += 1
+            ns = dict(store)
+            ns.update(delta)
+            return rv, ns
         self.fn_instances += 1
         frame = Frame(nctx, body)
+        store0 = store
         store = dict(store)
         for i, a in enumerate(args):
             if i + 1 < len(body.locals):
@@ -578,14 +648,15 @@ class Interp:
         nblocks = len(body.blocks)
         instate = [None] * nblocks
         instate[0] = store
-        work = [0]
+        rpo = body_rpo(body)
+        work = [(rpo[0], 0)]
         inwork = {0}
         ret_states = []
         ret_vals = EMPTY
         out_ret = None
         visits = [0] * nblocks
         while work:
-            bb = work.pop()
+            _, bb = heapq.heappop(work)
             inwork.discard(bb)
             st = instate[bb]
             if st is None:
@@ -593,6 +664,8 @@ class Interp:
             visits[bb] += 1
             if visits[bb] > 40:
                 self.warn("block visit cap in %s bb%d" % (body.id, bb))
+                if self.debug_cap and visits[bb] == 41:
+                    self.debug_cap(self, body, bb, instate[bb])
                 continue
             self.block_visits += 1
             self.reached.add((nctx, bb))
@@ -611,16 +684,21 @@ class Interp:
                     changed = ns is not old
                     instate[s] = ns
                 if changed and s not in inwork:
-                    work.append(s)
+                    heapq.heappush(work, (rpo[s], s))
                     inwork.add(s)
         if out_ret is None:
             # function never returns normally (all paths abort/diverge)
-            return None, store
+            if mkey is not None:
+                self.memo[mkey] = (None, {})
+            return None, store0
         rv = out_ret.get(frame.obj(0), EMPTY)
         # drop callee-local objects
         out = {k: v for k, v in out_ret.items() if k[0] != nctx}
         # but a returned value may hold refs into callee locals (e.g. promoted temporaries): resolve
         rv = self.detach(out_ret, rv, nctx)
+        if mkey is not None:
+            delta = {k: v for k, v in out.items() if store0.get(k) is not v}
+            self.memo[mkey] = (rv, delta)
         return rv, out
 
     def detach(self, store, v, nctx, depth=0):
@@ -737,12 +815,15 @@ class Interp:
         ret = None
         handled = False
         callee = self.F.get(rid) if rid else None
+        if callee is not None and callee.id.startswith(EXTERNAL_PREFIXES):
+            callee = None
         site = (body.id, bb, 0)
         if "indirect" in t:
             fv = self.operand(st, frame, t["indirect"])
             ret = self.invoke(st, frame, fv, args, site)
             handled = True
-        elif callee is not None and callee.id not in self.policy.opaque and not t.get("unresolved"):
+        elif callee is not None and callee.id not in self.policy.opaque and not t.get("unresolved") \
+                and callee.id not in self.policy.summarize:
             if callee.kind == "closure":
                 # direct call of a closure body through Fn*::call*: args = (closure, (tuple))
                 cargs = [args[0]] + self.untuple(st, args[1:]) if args else []
@@ -760,6 +841,10 @@ class Interp:
         elif callee is not None and callee.id in self.policy.opaque:
             ret = with_tag(Val(frozenset([("Call(%s)" % short_fn(callee.id), NOOPS)])),
                            "#call", V("Const(%s)" % callee.id))
+            handled = True
+        elif callee is not None and callee.id in self.policy.summarize:
+            d = self.derive(st, args, "kernel:" + callee.id.rsplit("::", 1)[-1])
+            ret = with_tag(d, "#call", V("Const(%s)" % callee.id))
             handled = True
         else:
             if re.search(r"::call(_once|_mut)?$", t.get("callee", "")) and "Fn" in t.get("callee", ""):
@@ -868,6 +953,37 @@ class Interp:
 
 
 # ---------------------------------------------------------------- helpers
+
+_RPO = {}
+
+
+def body_rpo(body):
+    r = _RPO.get(body.id)
+    if r is not None:
+        return r
+    n = len(body.blocks)
+    seen = [False] * n
+    order = []
+    stack = [(0, iter(body.succ[0]))]
+    seen[0] = True
+    while stack:
+        node, it = stack[-1]
+        adv = False
+        for s in it:
+            if not seen[s]:
+                seen[s] = True
+                stack.append((s, iter(body.succ[s])))
+                adv = True
+                break
+        if not adv:
+            order.append(node)
+            stack.pop()
+    idx = [n + 1] * n
+    for i, b in enumerate(reversed(order)):
+        idx[b] = i
+    _RPO[body.id] = idx
+    return idx
+
 
 def join_store(a, b):
     """Join two stores; returns `a` itself if nothing changed."""
